@@ -1,6 +1,6 @@
 (* C06 — automatic discovery agrees with the equivalent explicit declaration. *)
-From Sigtools.Model Require Import Base Bind Algebra Visitor Discover.
-From Sigtools.Proofs Require Import SmallModel Basics Discover.
+From Sigtools.Model Require Import Base Bind Algebra Visitor Discover Exec.
+From Sigtools.Proofs Require Import SmallModel Basics Discover Exec.
 
 (* the signatures forward_signatures collects are exactly forwards(wrapper,
    callee, n, *names, flags) of the calls that forward a star, in order *)
@@ -42,3 +42,27 @@ Theorem C06_flags found original :
   end.
 Proof. exact (has_hide_spec found original). Qed.
 Print Assumptions C06_flags.
+
+(* ---- invariance under semantically irrelevant variation, proved on the statement grammar of
+   Model/Exec.v (any program, any position): an unrelated call, a read-only alias of the positional star,
+   and moving statements under a branch leave every call's flags unchanged (Proofs/Exec.v) ---- *)
+Theorem C06_unrelated_call_invariant va vk l1 l2 f :
+  va <> vk -> block_ok va vk (l1 ++ l2) = true -> names_ok va vk (SOther f) = true ->
+  exists f1 f2,
+    visitor_flags va vk (l1 ++ l2) = Some (f1 ++ f2) /\
+    visitor_flags va vk (l1 ++ SOther f :: l2) = Some (f1 ++ dflags :: f2) /\
+    length f1 = ncalls_block l1.
+Proof. exact (unrelated_call_invariant va vk l1 l2 f). Qed.
+Print Assumptions C06_unrelated_call_invariant.
+
+Theorem C06_alias_args_invariant va vk l1 l2 y :
+  va <> vk -> block_ok va vk (l1 ++ l2) = true -> names_ok va vk (SAlias y SA) = true ->
+  visitor_flags va vk (l1 ++ SAlias y SA :: l2) = visitor_flags va vk (l1 ++ l2).
+Proof. exact (alias_args_invariant va vk l1 l2 y). Qed.
+Print Assumptions C06_alias_args_invariant.
+
+Theorem C06_branch_context_invariant va vk l1 a b l2 :
+  va <> vk -> block_ok va vk (l1 ++ a ++ b ++ l2) = true ->
+  visitor_flags va vk (l1 ++ SIf a b :: l2) = visitor_flags va vk (l1 ++ a ++ b ++ l2).
+Proof. exact (branch_context_invariant va vk l1 a b l2). Qed.
+Print Assumptions C06_branch_context_invariant.
